@@ -19,7 +19,8 @@ LEVEL_TEXT = (
     "materializations, doomed and identity leaves, trivially false predicates, zero-length slices, empty windows). "
     "Without executor a doomed verdict must imply an empty true result; with an executor that answers from ground "
     "truth the verdict must equal emptiness exactly and carry a message.  Every second program is first built and "
-    "diagnosed over twin leaves (same names, fewer rows) in the same engines."
+    "diagnosed over twin leaves (same names, fewer rows) in the same engines; a user-defined, not empty-invariant RowFilter "
+    "is put on top of iteration roots and answered for by the truthful executor."
 )
 LEVEL_NOTE = (
     "trusts: the harness executor answers from the reference evaluator applied to the decoded sub-relation it is handed "
